@@ -1,5 +1,6 @@
 import Sudachi.Model.Wire
 import Sudachi.Model.Codec
+import Sudachi.Model.CodecCsv
 import Sudachi.Model.Trie
 /-!
 # Dictionary builder (property C05): `dic/build/{parse,lexicon,conn,index,resolve,mod}.rs`
@@ -293,17 +294,25 @@ def validateWid (wid dic0Max dic1Max : Nat) : Bool :=
   let max := if widDic wid = 0 then dic0Max else dic1Max
   widWord wid < max
 
-def validateEntry (maxLeft maxRight : Int) (max0 max1 : Nat) (e : Entry) : Bool :=
+/-- The id `validate_entries` checks for the dictionary-form column.  `own = false`: the code as it stands (the
+parsed `WordId`: a plain `N` is checked against the SYSTEM dictionary).  `own = true` (candidate repair
+`fix_D8b.patch`): in a user dictionary the column names an entry of the dictionary itself - which is how
+`WordInfos::get_word_info` reads it (and how `write_word_info` stores `UN` since the first half of D8 was repaired) -
+so `N` and `UN` are both checked against the own entries.  The harness probes the linked builder (`dfv=cur|own`). -/
+def dfCheckId (own user : Bool) (df : Nat) : Nat :=
+  if own && user then widNew 1 (widWord df) else df
+
+def validateEntry (own user : Bool) (maxLeft maxRight : Int) (max0 max1 : Nat) (e : Entry) : Bool :=
   e.left < maxLeft && e.right < maxRight && !(e.left ≥ 0 && e.right < 0)
-    && (e.dicForm = INVALID_WID || validateWid e.dicForm max0 max1)
+    && (e.dicForm = INVALID_WID || validateWid (dfCheckId own user e.dicForm) max0 max1)
     && e.splitsA.all (validateWid · max0 max1) && e.splitsB.all (validateWid · max0 max1)
     && e.wordStructure.all (validateWid · max0 max1)
 
-def validateEntries (maxLeft maxRight : Int) (numSystem : Option Nat) (es : List Entry) : Bool :=
+def validateEntries (own : Bool) (maxLeft maxRight : Int) (numSystem : Option Nat) (es : List Entry) : Bool :=
   let (max0, max1) := match numSystem with
     | none => (es.length, 0)
     | some x => (x, es.length)
-  es.all (validateEntry maxLeft maxRight max0 max1)
+  es.all (validateEntry own numSystem.isSome maxLeft maxRight max0 max1)
 
 /-! ## connection matrix text (`conn.rs ConnBuffer::read`) -/
 
@@ -431,6 +440,8 @@ structure CompileInput where
   user : Bool
   /-- code variant of `write_word_info` (see `storeDf`) -/
   dfFix : Bool := false
+  /-- code variant of `validate_entries` (see `dfCheckId`) -/
+  dfOwn : Bool := false
   time : Nat
   desc : Bytes
   pos : List (List Str)
@@ -444,7 +455,7 @@ structure CompileInput where
 
 /-- `DictBuilder::compile` (after `resolve`): validate, header, grammar, index, lexicon -/
 def compile (c : CompileInput) : Outcome Bytes := do
-  if !validateEntries c.maxLeft c.maxRight c.numSystem c.entries then .err "InvalidFieldSize" else
+  if !validateEntries c.dfOwn c.maxLeft c.maxRight c.numSystem c.entries then .err "InvalidFieldSize" else
   let header ← writeHeader (if c.user then USER_DICT_VERSION_3 else SYSTEM_DICT_VERSION_2) c.time c.desc
   let posTable ← writePosTable c.pos c.startPos
   let conn ← writeConn c.conn
@@ -474,6 +485,10 @@ def buildSystem (dfFix : Bool) (time : Nat) (desc : Bytes) (matText : Str) (rows
   let bytes ← stage "compile" (compile ci)
   pure (bytes, entries.map (·.surface))
 
+/-- the same from the CSV TEXT: `LexiconReader::read_bytes` = the configured csv reader, then `read_record` per record -/
+def buildSystemText (dfFix : Bool) (time : Nat) (desc : Bytes) (matText csvText : Str) (trie : Bytes) : Except String (Bytes × List Str) :=
+  buildSystem dfFix time desc matText ((csvRecords csvText).map List.toArray) trie
+
 /-- `BinDictResolver::new`: surface (= headword), POS id and reading of every system word, read back
 from the loaded system dictionary -/
 def binResolverRows (lex : Lexicon) : Outcome (List ResolverRow) :=
@@ -483,7 +498,7 @@ def binResolverRows (lex : Lexicon) : Outcome (List ResolverRow) :=
     pure (wi.surface, wi.posId, rd, widNew 0 i))
 
 /-- `DictBuilder::new_user(system)` + `read_lexicon` + `resolve` + `compile` -/
-def buildUser (dfFix : Bool) (sys : Loaded) (time : Nat) (desc : Bytes) (rows : List (Array Str)) (trie : Bytes) : Except String (Bytes × List Str) := do
+def buildUser (dfFix dfOwn : Bool) (sys : Loaded) (time : Nat) (desc : Bytes) (rows : List (Array Str)) (trie : Bytes) : Except String (Bytes × List Str) := do
   let g ← match sys.grammar with
     | some g => pure g
     | none => .error "PANIC stage=unew"
@@ -494,7 +509,7 @@ def buildUser (dfFix : Bool) (sys : Loaded) (time : Nat) (desc : Bytes) (rows : 
   let sysRows ← if rd.unresolved > 0 then stage "uresolve" (binResolverRows sys.lexicon) else pure []
   let entries ← stage "uresolve" (ofOpt "resolve" (resolveSplits (rawResolverRows raw true) sysRows raw))
   let ci : CompileInput :=
-    { user := true, dfFix := dfFix, time := time, desc := desc, pos := rd.pos.toList, startPos := rd.startPos, conn := {}, entries := entries,
+    { user := true, dfFix := dfFix, dfOwn := dfOwn, time := time, desc := desc, pos := rd.pos.toList, startPos := rd.startPos, conn := {}, entries := entries,
       maxLeft := rd.maxLeft, maxRight := rd.maxRight, numSystem := rd.numSystem, trie := trie }
   let bytes ← stage "ucompile" (compile ci)
   pure (bytes, entries.map (·.surface))
@@ -603,28 +618,61 @@ where
       | some x, some y => go rest ((x * 16 + y) :: acc)
       | _, _ => none
 
+/-- tail-recursive UTF-8 decoding (same arithmetic as `Wire.utf8Decode`; whole CSV texts are long) -/
+def utf8TR (s : Bytes) : Option Str :=
+  go s []
+where
+  go : Bytes → Str → Option Str
+    | [], acc => some acc.reverse
+    | b0 :: rest, acc =>
+      if b0 < 0x80 then go rest (b0 :: acc)
+      else if b0 < 0xC0 then none
+      else if b0 < 0xE0 then
+        match rest with
+        | b1 :: r => go r (((b0 - 0xC0) * 64 + (b1 - 0x80)) :: acc)
+        | _ => none
+      else if b0 < 0xF0 then
+        match rest with
+        | b1 :: b2 :: r => go r (((b0 - 0xE0) * 4096 + (b1 - 0x80) * 64 + (b2 - 0x80)) :: acc)
+        | _ => none
+      else
+        match rest with
+        | b1 :: b2 :: b3 :: r => go r (((b0 - 0xF0) * 262144 + (b1 - 0x80) * 4096 + (b2 - 0x80) * 64 + (b3 - 0x80)) :: acc)
+        | _ => none
+
 /-- hex of UTF-8 → scalar values -/
-def hexStr? (s : List Char) : Option Str := (hexTR s).bind Wire.utf8Decode
+def hexStr? (s : List Char) : Option Str := (hexTR s).bind utf8TR
 
 /-- `rows=<row;row;...>`, row = `<field,field,...>`, field = hex of its UTF-8 bytes; `-` = no rows -/
 def parseRows (s : List Char) : Option (List (Array Str)) :=
   if s = ['-'] then some [] else
   Wire.allSome ((splitTR ';' s).map (fun row => (Wire.allSome ((splitTR ',' row).map hexStr?)).map List.toArray))
 
+/-- records as the harness prints the real reader's: rows `;`, fields `,`, each field the hex of its UTF-8 bytes -/
+def showRecs (rs : List (List Str)) : String :=
+  if rs.isEmpty then "-" else
+  Wire.joinWith ";" (rs.map (fun r => Wire.joinWith "," (r.map (fun f => showHex (f.flatMap utf8Enc)))))
+
+/-- `csv=<hex of the UTF-8 text>`: the records `LexiconReader::read_bytes` hands to `read_record`, split by the model
+of the configured csv reader (`Model/CodecCsv.lean`) -/
+def csvRows? (s : List Char) : Option (List (Array Str)) :=
+  (hexStr? s).map (fun t => (csvRecords t).map List.toArray)
+
 def run (toks : List (List Char)) : Except String String := do
   let bad : Except String String := .error "bad-op"
-  match Wire.kv? toks "time", Wire.kv? toks "desc", Wire.kv? toks "mat", Wire.kv? toks "rows", Wire.kv? toks "trie" with
+  match Wire.kv? toks "time", Wire.kv? toks "desc", Wire.kv? toks "mat", Wire.kv? toks "csv", Wire.kv? toks "trie" with
   | some t, some d, some m, some r, some tr =>
-    match Wire.nat? t, hexTR d, hexStr? m, parseRows r, hexTR tr with
+    match Wire.nat? t, hexTR d, hexStr? m, csvRows? r, hexTR tr with
     | some time, some desc, some mat, some rows, some trie =>
       let dfFix := Wire.kv? toks "df" == some "fix".toList
+      let dfOwn := Wire.kv? toks "dfv" == some "own".toList
       let (sysBytes, sysKeys) ← buildSystem dfFix time desc mat rows trie
       let sys ← stage "load" (readSystem sysBytes 0)
-      match Wire.kv? toks "urows", Wire.kv? toks "utrie", Wire.kv? toks "udesc" with
+      match Wire.kv? toks "ucsv", Wire.kv? toks "utrie", Wire.kv? toks "udesc" with
       | some ur, some utr, some ud =>
-        match parseRows ur, hexTR utr, hexTR ud with
+        match csvRows? ur, hexTR utr, hexTR ud with
         | some urows, some utrie, some udesc =>
-          let (usrBytes, usrKeys) ← buildUser dfFix sys time udesc urows utrie
+          let (usrBytes, usrKeys) ← buildUser dfFix dfOwn sys time udesc urows utrie
           let usr ← stage "uload" (readUser usrBytes 0)
           let d ← dump sys (some usr) (sysKeys ++ usrKeys)
           pure ("ok sys=" ++ showHex sysBytes ++ " usr=" ++ showHex usrBytes ++ " " ++ d)
@@ -635,10 +683,20 @@ def run (toks : List (List Char)) : Except String String := do
     | _, _, _, _, _ => bad
   | _, _, _, _, _ => bad
 
-/-- `C05 dict idx=.. df=cur|fix time=<secs> desc=<hex> mat=<hex> rows=<..> trie=<hex> [udesc=<hex> urows=<..> utrie=<hex>]` -/
+/-- the records of both CSV texts, printed in front of every answer (also of the error answers) -/
+def recPrefix (toks : List (List Char)) : String :=
+  let one (key name : String) : String :=
+    match Wire.kv? toks key with
+    | some r => (match hexStr? r with
+      | some t => name ++ "=" ++ showRecs (csvRecords t) ++ " "
+      | none => name ++ "=? ")
+    | none => ""
+  one "csv" "rec" ++ one "ucsv" "urec"
+
+/-- `C05 dict idx=.. df=cur|fix dfv=cur|own time=<secs> desc=<hex> mat=<hex> csv=<hex> trie=<hex> [udesc=<hex> ucsv=<hex> utrie=<hex>]` -/
 def handle (toks : List (List Char)) : String :=
-  match run toks with
+  recPrefix toks ++ (match run toks with
   | .ok s => s
-  | .error e => e
+  | .error e => e)
 
 end Codec
